@@ -25,7 +25,8 @@ CLAIM = ("Decides: inside every function that receives a backend, nested evaluat
          "math/numpy directly; arrhenius_equation/eyring_equation have dimensionless exponent arguments and the stated result dimension in "
          "both constant modes with hard-coded R and kB/h within 1e-4 of CODATA and every units attribute existing; from_rateconst_at_T uses "
          "the negated exponent of arrhenius_equation; positional arguments handed to Arrhenius/Eyring match argument_names; Expr.arg uses "
-         "one index for unique key, argument and default; the operator overloads build the matching binary node with operands in order.")
+         "one index for unique key, argument and default; the operator overloads build the matching binary node with operands in order."
+         ' Identity-element short-cuts of the operators, RT on both arms, radiolytic / ramp / sinusoid formulas, create_Poly arms. Shared rule A1: no swapped same-named arguments at resolved in-package call sites.')
 DOES_NOT_DECIDE = "numerical agreement between backends, create_Poly/create_Piecewise arithmetic, curve fitting"
 ASSUMPTIONS = ["`quantities` unit/constant tables (typing environment)", "operator.add/sub/mul/truediv/pow semantics"]
 F1 = Fraction(1)
